@@ -191,6 +191,25 @@ def known_fingerprints():
     return _FPS
 
 
+_KG = None
+
+
+def known_globals():
+    """{module: {name: dump of the value}} of the module-level names bound
+    exactly once on the tree the rules were written against."""
+    global _KG
+    if _KG is None:
+        p = os.path.join(os.path.dirname(os.path.abspath(__file__)),
+                         'known_globals.json')
+        try:
+            import json
+            with open(p, encoding='utf-8') as f:
+                _KG = json.load(f)
+        except (OSError, ValueError):
+            _KG = {}
+    return _KG
+
+
 def canonical_maps(containers):
     """containers: {container qualname: {actual name: FunctionDef}} for every
     module and class.  Returns {container: {actual name: known name}} for the
@@ -573,6 +592,29 @@ class Program:
             self._index_module(m)
         for c in self.all_classes.values():
             self._resolve_bases(c)
+        self._alias_renamed_globals()
+
+    def _alias_renamed_globals(self):
+        """A module-level table the rules address by name (`message._hcode`)
+        that was merely RENAMED - the known name is gone, exactly one new
+        module-level name is bound once to a value with the known dump - stays
+        reachable under the known name."""
+        kg = known_globals()
+        self.renamed_globals = {}
+        for m in self.modules.values():
+            known = kg.get(m.name) or {}
+            missing = {n: d for n, d in known.items() if n not in m.assigns}
+            if not missing:
+                continue
+            new = {n: _dump(v[0]) for n, v in m.assigns.items()
+                   if n not in known and len(v) == 1}
+            for old, d in missing.items():
+                cands = [n for n, dn in new.items() if dn == d]
+                if len(cands) == 1:
+                    m.assigns[old] = m.assigns[cands[0]]
+                    if cands[0] in m.mutated:
+                        m.mutated.add(old)
+                    self.renamed_globals['%s.%s' % (m.name, cands[0])] = old
 
     # -- indexing ----------------------------------------------------------
 
